@@ -28,8 +28,9 @@ SPEC = dict(
           "stop() | destructor | drain(short)+destructor; every such case is non-trivial. pool_edge: 6 small pools per case - 4x the last submission of a "
           "pool(0, max 1-2, idle 1-5 ms) placed one idle timeout (+ offset) after the warm-up tasks finished, with retiring "
           "workers held 2-6 ms by a scripted lock delay, then destructor/shutdown(); 2x a fork-join parent (submits a child into "
-          "the same pool and waits for it, canary-guarded bound) on pool(0-1, max 2-3) alone or next to 0-3 short tasks; every "
-          "such case is non-trivial. pool (which also gets at most one fork-join parent per plan when max >= 2 and the queue "
+          "the same pool and waits for it, canary-guarded bound) on pool(0-1, max 2-3) alone or next to 0-3 short tasks; plus one pool(initial 1-8, max 8) doing 1-3 restart cycles "
+          "(reset(), start() with delayed locks, 1-4 submitters that submit the moment getState()==Running, stop()); every "
+          "such case is non-trivial. pool (stop()-type ends continue with 0-2 such restart cycles; it also gets at most one fork-join parent per plan when max >= 2 and the queue "
           "cannot fill): non-trivial = shutdown began with a non-empty queue, or >=2 submitters were inside a submission at the same "
           "time, or a worker idle-exit was observed between two submissions; distinct by hash of the plan text."),
     assumptions=["initialSize <= maxSize (documented as minimum and hard limit; the generator clips)",
